@@ -53,8 +53,9 @@ CLAIMS = {
              "literal/escape sets are decided, in C18). Known finding: rooted tree wildcard in first position (pinned by an existing test).",
         ref="4 C01"),
     "C04": dict(
-        technique="static analysis: emission table of the encoder + regex algebra (group count / content), writer-reader table agreement, THIR evaluation of the capture indexers",
-        text="Decides the positional correspondence of regex groups and capturing tokens for every case of the emission "
+        technique="static analysis: capturing groups of the emitted program vs. capturing tokens on an expression catalogue; emission table of the encoder + regex algebra (group count / content), writer-reader table agreement, THIR evaluation of the capture indexers",
+        text="On ~8 000 buildable catalogue expressions the emitted program has exactly one capturing group per capturing top-level token (catalogue shapes only). "
+             "Decides the positional correspondence of regex groups and capturing tokens for every case of the emission "
              "table: writer set = is_capturing set, exactly one capturing group per capturing top-level token, none nested, "
              "separator-free content for ?,*,$,classes, complete components for tree wildcards, anchoring (capture 0 = whole "
              "path), Glob::captures enumerates is_capturing tokens 1..n, owned and borrowed matched text index alike.",
@@ -124,8 +125,9 @@ CLAIMS = {
         note=ASSUME + "Assumed: nom combinator semantics. Not decided: that the escaped text builds / is invariant (C01, C06, C11).",
         ref="4 C18"),
     "C19": dict(
-        technique="static analysis: THIR evaluation of the generic fold_map on a catalogue of abstract trees + variant tables + provenance of (tree, program) pairs + who-may-construct",
-        text="Decides that conversions preserve structure: variant-preserving kind tables, Token::into_owned rebuilds every "
+        technique="static analysis: Token::into_owned evaluated on an expression catalogue (identity on trees); THIR evaluation of the generic fold_map on a catalogue of abstract trees + variant tables + provenance of (tree, program) pairs + who-may-construct",
+        text="On ~5 600 buildable catalogue expressions Token::into_owned returns a structurally identical tree (catalogue shapes only). "
+             "Decides that conversions preserve structure: variant-preserving kind tables, Token::into_owned rebuilds every "
              "catalogue tree identically, every Glob/Any construction pairs a tree with the program compiled from it, FromStr / "
              "TryFrom / Display / Pattern routes reach new / parse_and_check.",
         note=ASSUME + "Not decided: equality of behaviour as such.",
